@@ -387,7 +387,8 @@ fn emit_cmd_cases(sys: &Sys, it: &mut It, before: &Snap, after: &Snap, op: &Valu
                     None => "first",
                 };
                 let ncerts = rc["certificates"]["issued"].as_object().map(|m| m.len()).unwrap_or(0) + rc["certificates"]["suspended"].as_object().map(|m| m.len()).unwrap_or(0);
-                *out.lock().unwrap().shrink_hist.entry(format!("{shrink}{}", if ncerts > 0 { "+children" } else { "" })).or_default() += 1;
+                let nsusp = rc["certificates"]["suspended"].as_object().map(|m| m.len()).unwrap_or(0);
+                *out.lock().unwrap().shrink_hist.entry(format!("{shrink}{}{}", if ncerts > 0 { "+children" } else { "" }, if nsusp > 0 { "+suspended" } else { "" })).or_default() += 1;
             }
             if ty == "drop_resource_class" { marks.dropped_since_settle = true; }
             if ty == "key_roll_activate" && !is_err {
@@ -664,7 +665,28 @@ fn run_history(args: &Args, hist: u64, seed: u64, n_ops: u64, out: &Mutex<Out>) 
             }
             3 => { let (p, c) = *rng.pick(&[("a", "b"), ("b", "c"), ("c", "e"), ("a", "d"), ("b", "d"), ("b", "l")]);
                    let s = rng.chance(60);
-                   (json!({"op": if s { "suspend" } else { "unsuspend" }, "parent": p, "child": c}), sys.child_suspend(p, c, s).map_err(|e| e.to_string())) }
+                   let r = sys.child_suspend(p, c, s).map_err(|e| e.to_string());
+                   let op = json!({"op": if s { "suspend" } else { "unsuspend" }, "parent": p, "child": c});
+                   // while the child is suspended its parent often loses part of what the suspended certificate holds
+                   if s && r.is_ok() && p != "a" && rng.chance(60) {
+                       already_emitted = true;
+                       emit_cmd_cases(&sys, &mut it, &before, &after(&sys), &op, hist, &mut marks, out);
+                       let pp = parent_choices(p)[0];
+                       let held = cur_ent(&sys, p, c) & cur_ent(&sys, pp, p);
+                       let bits: Vec<u64> = (0..8).filter(|i| held & (1 << (16 + i)) != 0).collect();
+                       if !bits.is_empty() {
+                           let lose = atoms(1 << *rng.pick(&bits));
+                           let op2 = json!({"op": "entitlement", "how": "shrink-while-child-suspended", "parent": pp, "child": p, "loses": lose});
+                           if marks.guard && open_request(&sys, pp, p) { let _ = do_sync(&sys, &mut it, pp, p, &op2, hist, &mut marks, out); }
+                           let b2 = snapshot(&sys);
+                           let cur_p = cur_ent(&sys, pp, p);
+                           if cur_p & !lose != 0 { let _ = sys.update_child_resources(pp, p, mask_to_rs(cur_p & !lose)); }
+                           emit_cmd_cases(&sys, &mut it, &b2, &after(&sys), &op2, hist, &mut marks, out);
+                           // the suspended child does not call in (unless it has an open request): only its parent synchronises
+                           for _ in 0..2 { let _ = do_sync(&sys, &mut it, pp, p, &op2, hist, &mut marks, out); }
+                       }
+                   }
+                   (op, r) }
             4 => { // ROA add / remove
                 let list = roas.entry(x).or_default();
                 if !list.is_empty() && rng.chance(35) {
